@@ -1,16 +1,11 @@
 #![no_main]
-//! Raw bytes (lossy UTF-8) through the C15 text oracle: parse_kip agrees with exactly the matching
-//! specific entry point, two parses agree, accepted commands re-validate, survive a JSON round trip
-//! and never ignore junk on a following line; over-long inputs are refused with the resource error.
+//! Raw bytes (lossy UTF-8) through the C15 g3_unicode oracle (kind 0 = the text as it is):
+//! parse_kip agrees with exactly the matching specific entry point, two parses agree, accepted
+//! commands re-validate, survive a JSON round trip and never ignore junk on a following line;
+//! over-long inputs are refused with the resource error.
 use libfuzzer_sys::fuzz_target;
 fuzz_target!(|data: &[u8]| {
-    let text = String::from_utf8_lossy(data);
-    let mut ctx = vf_core::CaseCtx::default();
-    let seed = data.len() as u64;
-    if let Err(msg) = vf_kip::c15::check_text(&text, seed, &mut ctx) {
-        if !msg.starts_with("inconclusive:") {
-            eprintln!("FUZZ-VIOLATION property=C15: {msg}");
-            std::process::abort();
-        }
-    }
+    let text = String::from_utf8_lossy(data).into_owned();
+    let case = vf_kip::c15::G3Case { kind: 0, text, filler: 0, delta: 0, seed: data.len() as u64 };
+    vf_core::fuzz_case("C15", "g3_unicode", &case, vf_kip::c15::run_g3_small_stack);
 });
